@@ -80,6 +80,9 @@ def grid(tier: str) -> List[Dict[str, Any]]:
                         "sibling": True, "jitter": jit})
 
         pts.append({"q": q, "probe": probe, "id": id_, "port": port, "fam": fam, "age": age, "socks": socks, "jitter": jit})
+        if probe and age in ("400ms", "fresh", "30s+1", "5000s") and id_ == 0:
+            pts.append({"q": q, "probe": probe, "id": id_, "port": port, "fam": fam, "age": age, "socks": socks, "jitter": jit,
+                        "probe_ka": True})
         if port != 5353 and socks in ("single", "single6") and age in ("fresh", "5000s") and not probe:
             for pre in (50, 390):
                 pts.append({"q": q, "probe": probe, "id": id_, "port": port, "fam": fam, "age": age, "socks": socks, "jitter": jit,
@@ -162,7 +165,10 @@ def run_point(p: Dict[str, Any], verbose: bool = False) -> Tuple[Optional[Dict[s
         w.advance_to_ms(tq - p.get("pre_copy_ms", 0) - 1 if p.get("pre_copy_ms") else tq)
         qs = QUESTIONS[p["q"]]
         auth = [("PTR", TA, 1, 4500, "proposed._a._tcp.local.")] if p["probe"] else []
-        data = wire.query([("Q", n, t, 0x8001 if qu else 1) for n, t, qu in qs], authorities=auth, id_=p["id"])
+        # (a probe may share its datagram with an ordinary question and that question's known answers: it stays a probe)
+        ka = [("PTR", "_zz._tcp.local.", 1, 4500, "q._zz._tcp.local.")] if p.get("probe_ka") else []
+        data = wire.query([("Q", n, t, 0x8001 if qu else 1) for n, t, qu in qs] + ([("Q", "_zz._tcp.local.", 12, 1)] if ka else []),
+                          answers=ka, authorities=auth, id_=p["id"])
         v6 = p["fam"] in ("v6", "v4m")
         src_ip = ("::ffff:10.0.0.99" if p["fam"] == "v4m" else "fe80::99") if v6 else "10.0.0.99"
         # which socket receives: multicast queries arrive on the listen socket (dual) / the only socket (single);
@@ -308,8 +314,9 @@ def run_point(p: Dict[str, Any], verbose: bool = False) -> Tuple[Optional[Dict[s
                     if d.msg.id != p["id"]:
                         problems.append(f"legacy: reply id {d.msg.id:#x}, query id {p['id']:#x}")
                     echoed = [(q[1], q[2]) for q in d.msg.questions]
-                    if echoed != [(n, t) for n, t, _ in qs]:
-                        problems.append(f"legacy: questions echoed {echoed}, asked {[(n, t) for n, t, _ in qs]}")
+                    asked = [(n, t) for n, t, _ in qs] + ([("_zz._tcp.local.", 12)] if p.get("probe_ka") else [])
+                    if echoed != asked:
+                        problems.append(f"legacy: questions echoed {echoed}, asked {asked}")
                     if any(r[2] & 0x8000 for r in d.msg.records()):
                         problems.append("legacy: reply carries cache-flush bits")
         elif unicasts:
